@@ -261,7 +261,9 @@ def run(ctx):
     try:
         keys = {"STATUS", "TESTS", "NAME", "GRP"}
         if ctx.thorough:
-            runs = [("three", dict(MaxItems=3, MaxDepth=2, KeyPool=keys, ValPool={"w", "int", "zero", "one", "fzero", "fone", "t", "f", "l2", "l01", "lmap", "z1", "ztrail", "zblank3", "holo", "null"})),
+            runs = [("three", dict(MaxItems=3, MaxDepth=2, KeyPool=keys, ValPool={"w", "one", "fzero", "l01", "lmap", "zblank3", "holo", "null"})),
+                    ("two", dict(MaxItems=2, MaxDepth=1, KeyPool=keys, ValPool={"w", "two", "int", "zero", "one", "fzero", "fone", "t", "f", "l2", "l01", "lmap", "lq", "z1",
+                                                                                  "ztrail", "zblank3", "holo", "null", "flow", "nl", "nlsp"})),
                     ("four", dict(MaxItems=4, MaxDepth=3, KeyPool={"STATUS", "NAME", "GRP"}, ValPool={"w"}))]
         else:
             runs = [("two", dict(MaxItems=2, MaxDepth=1, KeyPool=keys, ValPool={"w", "two", "int", "zero", "one", "fone", "t", "l2", "l01", "lmap", "lq", "z1", "zblank3", "holo", "null", "flow"})),
